@@ -843,6 +843,10 @@ func (t *trzszTransfer) pipelineRecvBinaryData() ([]byte, *time.Time, error) {
 		return nil, nil, err
 	}
 
+	if err := t.checkDataSize(size); err != nil {
+		return nil, nil, err
+	}
+
 	if size == 0 {
 		return []byte{}, beginTime, nil
 	}
